@@ -337,7 +337,8 @@ func runOneW(seed int64, idx int, synced bool, tag string, wdog string) (string,
 
 var reHangFrame = regexp.MustCompile(`github\.com/piotrnar/gocoin/client/network\.\(\*OneConnection\)\.([A-Za-z0-9_]+)\(`)
 
-// hangSite finds the handler on the stack of the goroutine that executes Run.
+// hangSite names where the goroutine executing Run is stuck: "handler@function-called-by-the-handler".
+// (The innermost frame of a spinning loop differs from dump to dump, the two outermost ones do not.)
 func hangSite(stacks string) string {
 	for _, blk := range strings.Split(stacks, "\n\n") {
 		if !strings.Contains(blk, "(*OneConnection).Run(") {
@@ -349,9 +350,41 @@ func hangSite(stacks string) string {
 				fr = append(fr, strings.TrimPrefix(m[1], "github.com/piotrnar/gocoin/"))
 			}
 		}
-		return where(fr)
+		for i, f := range fr {
+			if strings.HasSuffix(f, "client/network.(*OneConnection).Run") {
+				switch {
+				case i >= 2:
+					return shortFn(fr[i-1]) + "@" + shortFn(fr[i-2])
+				case i == 1:
+					return shortFn(fr[0])
+				}
+				return "Run"
+			}
+		}
 	}
 	return "unknown"
+}
+
+// mainGoroutine lists the first frames of goroutine 1 of a dump (library child).
+func mainGoroutine(dump string) string {
+	i := strings.Index(dump, "goroutine 1 [")
+	if i < 0 {
+		return ""
+	}
+	blk := dump[i:]
+	if e := strings.Index(blk, "\n\n"); e > 0 {
+		blk = blk[:e]
+	}
+	var fr []string
+	for _, l := range strings.Split(blk, "\n")[1:] {
+		if !strings.HasPrefix(l, "\t") && strings.Contains(l, "(") {
+			fr = append(fr, l[:strings.LastIndex(l, "(")])
+		}
+		if len(fr) >= 8 {
+			break
+		}
+	}
+	return strings.Join(fr, " <- ")
 }
 
 func runBatch(b batch, bi int) {
